@@ -100,7 +100,7 @@ func init() {
 		Harnesses: []harnessSpec{
 			{Pkg: "amf0", Func: "HarnessC05_Tree", Labels: []string{"tree"},
 				Bound:  "trees of <=3 nodes, depth <=2, <=2 properties per container, strings/keys 0-1 symbolic bytes, numbers 64 symbolic bits",
-				BoundT: "trees of <=5 nodes, depth <=3, <=3 properties, strings/keys 0-2 symbolic bytes plus strings of 255/256/65535 bytes"},
+				BoundT: "trees of <=4 nodes, depth <=3, <=3 properties, strings/keys 0-2 symbolic bytes plus strings of 255/256/65535 bytes"},
 			{Pkg: "amf0", Func: "HarnessC05_Bytes", Labels: []string{"bytes-accepted", "bytes-rejected"},
 				Bound: "every byte string of 1..10 bytes (thorough: 1..13)"},
 			{Pkg: "amf0", Func: "HarnessC05_DupKeys", Labels: []string{"dupkeys"},
